@@ -93,10 +93,13 @@ class SimLock:
             s.block_on(me, self)
         self.owner = me
         self.depth += 1
+        s.holding[me] = s.holding.get(me, 0) + 1
         return True
 
     def release(self):
         self.depth -= 1
+        if self.owner in self.sched.holding:
+            self.sched.holding[self.owner] -= 1
         if self.depth == 0:
             self.owner = None
             self.sched.wake(self)
@@ -139,6 +142,8 @@ class Scheduler:
         self.locs_seen = {}
         self.prio = {}
         self.change_points = set(spec.get("change_points", []))
+        self.holding = {}  # tid -> number of simulated locks held
+        self.inlock_seen = 0
 
     def reach(self, k, n=1):
         self.stats[k] = self.stats.get(k, 0) + n
@@ -194,6 +199,16 @@ class Scheduler:
                             to = self.rng.choice(sorted(others))
                 elif self.rng.random() < self.spec.get("p", 0.0):
                     to = self.rng.choice(sorted(others))
+            elif st == "inlock":
+                # pre-empt at the nth yield point reached *while holding a lock*: whatever the code
+                # inside the critical sections looks like, this is where lock-free paths of the
+                # other threads meet half-done work
+                if self.holding.get(me, 0) > 0:
+                    self.inlock_seen += 1
+                    nths = self.spec.get("nths", [])
+                    if self.npre < len(nths) and self.inlock_seen == nths[self.npre]:
+                        self.inlock_seen = 0
+                        to = self.rng.choice(sorted(others))
             elif st == "pct":
                 if self.step in self.change_points:
                     # demote the running thread below everybody else
